@@ -124,7 +124,7 @@ def leader_msg_arms(cx):
             elif as_cand:
                 setblocks = {}
                 for sp, x in cx.prog.calls_out[c.fn.key]:
-                    if x.kind == "call" and any(k in setters for k in cx.prog.short.get(sp, [])) and _in_msg_arm(cx, x, {T}, depth=0):
+                    if x.kind == "call" and any(k in setters for k in cx.prog.short.get(sp, [])) and _in_msg_arm(cx, x, {"MsgAppend", "MsgHeartbeat", "MsgSnapshot"}, depth=0):
                         setblocks[x.block] = x
                 ok = bool(setblocks) and g.dominated_by_block(c.at, lambda b: b in setblocks)
                 cx.check(ok, key + ":stepdown", "a (pre)candidate becomes follower before it handles a %s of its own term" % T, c)
@@ -264,6 +264,10 @@ def send_gate(cx):
         if d[2] == "assign" and "use" in d[3] and "const" in d[3]["use"] and d[3]["use"]["const"].get("val", {}).get("int") == 1:
             n_e += 1
             tr_ok = tr_ok and g.dominated_by_block((d[0], d[1]), lambda b: b in bsb)
+        # the same report made by handing the message out: `-> Option<Message>`, success = Some(m)
+        if d[2] == "assign" and d[3].get("agg") == "adt" and d[3].get("adt") == "core::option::Option" and d[3].get("variant") == "Some":
+            n_e += 1
+            tr_ok = tr_ok and g.dominated_by_block((d[0], d[1]), lambda b: b in bsb)
     cx.check(tr_ok and n_e >= 1, "true-after-pause", "prepare_send_snapshot reports success only after the snapshot was attached and the progress paused")
     for c in callers_of(cx, psn):
         def wanted(l):
@@ -340,6 +344,30 @@ def response(cx):
         idx = t.get("index")
         gl = cx.guard_lits(t.site)
         restored = [l for l in gl if l[0] == "is" and l[1][0] == "call" and strip_generics(inst.key) == l[1][1]]
+        if not restored and idx is not None and idx[0] == "phi":
+            # one reply for both outcomes, its index chosen beforehand: `let ack = if self.restore(..) { last_index() }
+            # else { committed }; reply.index = ack;` -- read the stored value per path
+            g = cx.pg(t.fn)
+            a = cx.prog.A(t.fn)
+            for w in cx.prog.writes.get("Message.index", []):
+                if w.fn is not t.fn or "stmt" not in w.data:
+                    continue
+                try:
+                    rows = g.site_values(w.at, lambda env, w=w: a.expr_rvalue(w.data["stmt"]["rv"], w.at, 0, env))
+                except OverflowError:
+                    continue
+                seen_rows = set()
+                for lits, v in rows:
+                    r = [l for l in lits if l[0] == "is" and l[1][0] == "call" and strip_generics(inst.key) == l[1][1]]
+                    if not r or (r[-1][2], v) in seen_rows:
+                        continue
+                    seen_rows.add((r[-1][2], v))
+                    n += 1
+                    if r[-1][2] is True:
+                        cx.check(v[0] == "call" and v[1].endswith("RaftLog::last_index"), cx.site_key(w, "installed"), "after an install the follower acknowledges last_index() (found %s)" % show(v)[:80], w)
+                    else:
+                        cx.check(is_f(v, "RaftLog.committed"), cx.site_key(w, "ignored"), "an ignored snapshot is answered with the commit index (found %s)" % show(v)[:80], w)
+            continue
         if not restored:
             continue
         n += 1
@@ -534,6 +562,17 @@ def writers(cx):
                 g = cx.pg(c.fn)
                 ok, ne = g.after_edge_must_pass(lambda lits: any(_left_voters(cx, l) for l in lits), lambda b, c=c: b == c.block)
                 cx.check(ok and ne >= 1, cx.site_key(c, "abort:left-voters:converse"), "whenever the target has left the voters the transfer is abandoned", c)
+                # ... and the test itself is not skippable: once the function has established that this node is the
+                # leader of a configuration with voters, every way out passes the test (an early return out of an
+                # unrelated block -- pending reads without a quorum yet -- must not bypass it)
+                test_blocks = {g.nodes[n_][0] for n_ in range(len(g.nodes)) for _, ls in g.edges[n_] or [] if any(_left_voters(cx, l) or (l[0] == "in" and is_f(l[1], LT)) for l in ls)}
+                lead_l = [l for n_ in range(len(g.nodes)) for _, ls in g.edges[n_] or [] for l in ls if l[0] == "in" and is_f(l[1], STATE) and l[2] == frozenset(["Leader"])]
+                nonempty = [l for n_ in range(len(g.nodes)) for _, ls in g.edges[n_] or [] for l in ls if l[0] == "is" and l[2] is False and l[1][0] == "call" and l[1][1].endswith("is_empty") and "voters" in show(l[1])]
+                voter = [l for n_ in range(len(g.nodes)) for _, ls in g.edges[n_] or [] for l in ls if l[0] == "is" and l[2] is True and l[1][0] == "call" and l[1][1].endswith("::contains") and any(is_f(x, "Configuration.voters") for x in walk(l[1])) and any(is_f(x, "RaftCore.id") for x in walk(l[1]))]
+                rbs = [bi for bi in sorted(cx.prog.A(c.fn).reach) if c.fn.body.blocks[bi]["term"]["k"] == "return"]
+                okr = bool(lead_l) and bool(test_blocks) and all(g.dominated_by_block((rb, "term"), lambda b: b in test_blocks, assume=lead_l[:1] + nonempty[:1] + voter[:1]) for rb in rbs)
+                nr = len(rbs)
+                cx.check(okr and nr >= 1, cx.site_key(c, "abort:left-voters:reached"), "as leader the function always gets to the transfer-target test (no early return bypasses it)", c)
                 continue
             if any(l[0] == "in" and is_f(l[1], LT) and l[2] == frozenset(["Some"]) for l in gl) and any(s.fn is c.fn for s, _ in sets):
                 kinds.add("retarget")
